@@ -28,6 +28,7 @@ Core Lean + `Std.Data.HashMap` (toolchain library, used only by the line-protoco
 -/
 import CBV.Model.Common
 import CBV.Gen.Tables
+import CBV.Model.C13Driver
 import Std.Data.HashMap
 
 namespace CBV.C13
@@ -289,8 +290,6 @@ def sketchPositions (quads : List (List Nat)) (faces : List (List P)) : Option (
 
 /-! ### the tolerance criterion of `IterationDriver.converged` over ℚ -/
 
-def vsmall : Rat := 1 / 1000000
-
 /-- `IterationData.improvement` -/
 def iterImprovement (h : Rat × Rat) : Rat :=
   if (if h.1 - h.2 < 0 then h.2 - h.1 else h.1 - h.2) < vsmall then vsmall else h.1 - h.2
@@ -403,7 +402,7 @@ def convQV (tol : Rat) (hist : List (QV × QV)) : Bool :=
   | some h => convRat tol h
   | none => false
 
-/-- `c13.opt pts clamps links pos lnk G J maxit:tol sched back`
+/-- `c13.opt pts clamps links pos lnk G J maxit:tol sched back` (`d:d` = the default arguments of `optimize`)
     → `final=[…] prm=[…] raised=<site|none> fuel=<0|1> hist=[qi:qf,…] steps=[it:clamp:flag:gi:gf,…] back=<[…]|err>` -/
 def handleOpt (args : List String) : Option String :=
   match args with
@@ -416,6 +415,7 @@ def handleOpt (args : List String) : Option String :=
       let g ← parseG? g
       let jt ← parseJ? jt
       let (maxIter, tol) ← match drv.splitOn ":" with
+        | ["d", "d"] => some (defaultMaxIter, defaultTol)  -- `optimize()` without arguments
         | [m, t] => do some ((← parseNat? m), (← parseRat? t))
         | _ => none
       let iters ← (if sched = "-" then some [] else (sched.splitOn "|").mapM parseIter?)
@@ -533,6 +533,8 @@ def handle (op : String) (args : List String) : Option String :=
   match op with
   | "c13.opt" => handleOpt args
   | "c13.setup" => handleSetup args
+  | "c13.driver" => handleDriver args
+  | "c13.reporter" => handleReporter args
   | _ => none
 
 end CBV.C13
